@@ -1,4 +1,4 @@
-import PsycheModel.DeclParser
+import PsycheModel.DeclPrint
 /-! Line driver for the declarator-parser model.  Input: a string of token letters
 (`*` `(` `)` `[` `]` `,` `.` ellipsis, `3` number, `x` identifier (numbered x1, x2 … in order), `c v r a` qualifiers,
 `i` / `h` specifiers `int` / `char`, `;` stop).  Output: the declarator tree in the notation of `psyh declarators`
@@ -37,12 +37,22 @@ partial def countPs : Params → Nat
   | .cons _ _ rest => 1 + countPs rest
 end
 
+def letter : Tok → String
+  | .star => "*" | .lparen => "(" | .rparen => ")" | .lbrack => "[" | .rbrack => "]" | .comma => "," | .ellipsis => "." | .num => "3"
+  | .stop => ";" | .ident _ => "x" | .qual q => qch q | .spec s => if s == "int" then "i" else "h"
+
+/-- the declarator list printed back with `pr` (theorems `parse_print*` of Props/C07.lean are about `pr` and `wf`) -/
+def printList : List Decl → List Tok
+  | [] => [.stop]
+  | [d] => pr d [.stop]
+  | d :: ds => pr d (.comma :: printList ds)
+
 def handle (line : String) : String :=
   match toToks line.trimAscii.toString.toList 0 with
   | none => "bad-case"
   | some ts =>
     match parseDeclaratorList (ts.length + 1) ts with
-    | some ds => s!"{ds.length} {" ".intercalate (ds.map showD)}"
+    | some ds => s!"{ds.length} {" ".intercalate (ds.map showD)} | wf={if ds.all (wf .concrete) then 1 else 0} pr={String.join ((printList ds).map letter)}"
     | none => "none"
 
 end Driver.DeclParserDrv
